@@ -28,6 +28,9 @@ THEOREMS = [
     "RedunModel.C38.subrun_shallow_replays_ultimate",
     "RedunModel.C38.no_cache_run_only_cse",
     "RedunModel.C38.no_cache_run_restarts_subrun",
+    "RedunModel.C38.mem_loadModules",
+    "RedunModel.C38.load_modules_cover_tasks",
+    "RedunModel.C38.load_modules_only_registered",
 ]
 TRUSTED = [
     "task library and Python semantics as in C01; the three database look-ups behind check_cache are inputs of the lookup model "
@@ -314,6 +317,167 @@ def run_program(ctx, G, R, C12, name, e, sx, rep_e, rep_sub, configs, pending):
     for ne, cache, cv, ex in configs:
         execs = (1,) if (ctx.tier == "quick" and name not in TWO_EXECUTIONS) else (1, 2)
         one_config(ctx, G, R, C12, name, e, sx, outs_e, has_unk_e, direct, ne, cache, cv, pending, executor=ex, executions=execs)
+
+
+# ------------------------------------------------------------------------------------------------ what subrun ships
+def _mk_task(modname, i):
+    from redun import task
+
+    def f(x):
+        return x + 1000
+    f.__module__ = modname
+    f.__name__ = f.__qualname__ = "t%d" % i
+    return task(name="t%d" % i, namespace="c38m")(f)
+
+
+def modules_section(ctx, G, R, base):
+    """(a) the `load_modules` value subrun hands to _subrun_root_task = the modules of all registered tasks outside redun proper,
+    whatever they are called (model SubrunModules.loadModules, theorem load_modules_cover_tasks)"""
+    import sys
+    import types
+
+    from core import hx
+    from redun.scheduler import subrun
+    from redun.task import get_task_registry
+    rng = random.Random(base * 13 + 1)
+    n = rng.randrange(100, 999)
+    names = ["redunflows_%d" % n, "redun_workflows_%d" % n, "redun%d" % n, "redunx%d.flows" % n, "wf_c38_%d" % n,
+             "pkg%d.sub.wf" % n, "redun.tests.c38_%d" % n, "redun.userflows_%d" % n, "redun"]
+    tasks = []
+    for i, m in enumerate(names):
+        if m not in sys.modules:
+            sys.modules[m] = types.ModuleType(m)
+        tasks.append(_mk_task(m, n * 100 + i))
+    expr = [t(i) for i, t in enumerate(tasks)]
+    box = Box(R)
+    captured = []
+    try:
+        sched = box.scheduler()
+        real_eval = sched.evaluate
+
+        def evaluate(e, parent_job=None):
+            if getattr(e, "task_name", None) == SUBRUN_TASK:
+                captured.append(list(e.kwargs.get("load_modules") or []))
+            return real_eval(e, parent_job=parent_job)
+
+        sched.evaluate = evaluate
+        o, _ = R.run_free(subrun(expr, executor="default"), sched=sched, timeout=90)
+    finally:
+        box.close()
+    registry_modules = sorted({t.load_module for t in get_task_registry()})
+    replies = ctx.model("C01", ["(ownmodule s%s)" % hx(m) for m in registry_modules])
+    expected = sorted(m for m, r in zip(registry_modules, replies) if r == "F")
+    case = {"modules_case": True, "task_modules": names, "registry_modules": registry_modules}
+    if o != ("ok", tuple(["L"] + [i + 1000 for i in range(len(tasks))])):
+        ctx.violation("C38-result-differs", "subrun over tasks of generated modules does not give what evaluating them gives", case=case,
+                      expected=[i + 1000 for i in range(len(tasks))], actual=G.show(o))
+    if not captured:
+        ctx.violation("C38-load-modules-not-observed", "subrun did not evaluate a subrun_root_task call", case=case, expected=1, actual=0)
+    for lm in captured:
+        missing = sorted(set(expected) - set(lm))
+        extra = sorted(set(lm) - set(expected))
+        if missing:
+            ctx.violation("C38-load-modules-miss-user-module", "subrun does not ship a module that defines registered user tasks: a "
+                          "sub-scheduler in a fresh interpreter cannot find them", case=case, expected=expected,
+                          actual={"load_modules": lm, "missing": missing}, kind="input")
+        if extra:
+            ctx.mismatch("subrun ships modules the model counts as redun's own", case=case, model=expected, impl=lm,
+                         signature="C38-load-modules-extra")
+    ctx.case(key=("modules", tuple(names)), mode="load-modules", sample={"task_modules": names, "load_modules": captured[:1]})
+
+
+FLOW_SOURCE = '''
+from redun import task
+
+redun_namespace = "{name}"
+
+
+@task
+def inc(x):
+    return x + 1
+
+
+@task
+def total(xs):
+    return sum(xs)
+
+
+@task
+def flow(x):
+    return total([inc(x), inc(inc(x))])
+
+
+@task
+def boom(x):
+    raise ValueError("boom %d" % x)
+
+
+@task
+def boom_flow(x):
+    return [inc(x), boom(inc(x))]
+'''
+
+
+def fresh_process_section(ctx, G, R, base):
+    """(b) end to end: the sub-scheduler runs in a FRESH interpreter (process executor, start method spawn), where importing
+    load_modules is the only thing that registers the user's tasks; the workflow module is called redunflows_<n>"""
+    import importlib
+    import sys
+
+    from redun import Scheduler
+    from redun.config import Config
+    from redun.scheduler import subrun
+    n = random.Random(base * 17 + 3).randrange(1000, 9999)
+    name = "redunflows_%d" % n
+    d = tempfile.mkdtemp(prefix="verif-c38-mod-")
+    old_pp = os.environ.get("PYTHONPATH")
+    # a spawned interpreter re-imports the parent's __main__ script (harness/main.py, which runs the check at import):
+    # hide the script path while the worker processes are started
+    main_mod = sys.modules.get("__main__")
+    main_file = getattr(main_mod, "__file__", None)
+    main_spec = getattr(main_mod, "__spec__", None)
+    try:
+        if main_file is not None:
+            del main_mod.__file__
+        main_mod.__spec__ = None
+        with open(os.path.join(d, name + ".py"), "w") as f:
+            f.write(FLOW_SOURCE.format(name=name))
+        sys.path.insert(0, d)
+        os.environ["PYTHONPATH"] = d + (os.pathsep + old_pp if old_pp else "")
+        mod = importlib.import_module(name)
+        for prog, mk, ne in (("flow", lambda: mod.flow(3), False), ("boom_flow", lambda: mod.boom_flow(2), True)):
+            outcomes = {}
+            for how in ("direct", "subrun"):
+                box = Box(R)
+                try:
+                    cfg = box.config()
+                    cfg["executors.fresh"] = {"type": "local", "mode": "process", "start_method": "spawn", "max_workers": "1"}
+                    sched = Scheduler(config=Config(cfg))
+                    sched.load()
+                    expr = mk() if how == "direct" else subrun(mk(), executor="fresh", new_execution=ne)
+                    outcomes[how], _ = R.run_free(expr, sched=sched, timeout=120)
+                finally:
+                    box.close()
+            case = {"fresh_process_case": True, "module": name, "program": prog, "new_execution": ne}
+            if outcomes["subrun"] != outcomes["direct"]:
+                ctx.violation("C38-fresh-process-subrun-differs", "subrun on a process executor with a fresh interpreter does not give "
+                              "what direct evaluation gives (the workflow's module %s was not loaded?)" % name, case=case,
+                              expected=G.show(outcomes["direct"]), actual=G.show(outcomes["subrun"]), kind="input")
+            ctx.case(key=("fresh-process", prog, ne), mode="fresh-process", outcome=outcomes["subrun"][0],
+                     same_as_direct=(outcomes["subrun"] == outcomes["direct"]),
+                     sample={"module": name, "program": prog, "direct": G.show(outcomes["direct"])[:100],
+                             "subrun": G.show(outcomes["subrun"])[:160]})
+    finally:
+        if main_file is not None:
+            main_mod.__file__ = main_file
+        main_mod.__spec__ = main_spec
+        if d in sys.path:
+            sys.path.remove(d)
+        if old_pp is None:
+            os.environ.pop("PYTHONPATH", None)
+        else:
+            os.environ["PYTHONPATH"] = old_pp
+        shutil.rmtree(d, ignore_errors=True)
 
 
 # ------------------------------------------------------------------------------------------------ no-cache histories
@@ -630,6 +794,8 @@ def run(ctx):
     nocache_section(ctx, G, R, C12, base, pending)
     C12.flush_lookups(ctx, pending)
     context_section(ctx, G, R, base)
+    fresh_process_section(ctx, G, R, base)      # before modules_section: its synthetic modules exist in this process only
+    modules_section(ctx, G, R, base)
 
 
 def replay(ctx, case):
@@ -637,6 +803,10 @@ def replay(ctx, case):
     from props import _evalgen as G
     from props import _evalrun as R
     c = case.get("case") or {}
+    if c.get("modules_case"):
+        return modules_section(ctx, G, R, ctx.seed)
+    if c.get("fresh_process_case"):
+        return fresh_process_section(ctx, G, R, ctx.seed)
     sx = c.get("expr")
     if not sx:
         return run(ctx)
